@@ -102,8 +102,8 @@ static void gen_case(vh::Rng & r, CaseData & cd)
     cd.shape = "generic";
   }
   // offset, motion, noise
-  int ok = r.range(0, 3);
-  cd.offset_norm = ok == 0 ? 0 : ok == 1 ? r.logu(0.01, 1.0) * cd.spread : r.logu(1.0, 100.0) * cd.spread;
+  int ok = r.range(0, 4);
+  cd.offset_norm = ok == 0 ? 0 : ok == 1 ? r.logu(0.01, 1.0) * cd.spread : ok == 2 ? r.logu(1.0, 100.0) * cd.spread : r.logu(100.0, 1e5) * cd.spread;
   VecL off = random_unit(r, d) * cd.offset_norm;
   int ak = r.range(0, 9);
   const LD PI_L = 3.14159265358979323846264338327950288L;
@@ -185,8 +185,11 @@ static void run_case(vh::Ctx & c, CaseData & cd)
   Eigen::JacobiSVD<MatL> psvd(A);
   LD amp = d == 3 ? psvd.singularValues()(0) / psvd.singularValues()(1) : 1.0L;
   LD off = std::max(sm.norm(), tm.norm());
-  LD ratio = (1 + off / spread) * (1 + off / spread);
   LD mag = off + spread + cd.ttrue.norm();
+  // conditioning of the centred quantities: coordinates of magnitude `mag` are rounded at eps*mag,
+  // i.e. eps*mag/spread relative to the extent that determines the rotation (linear, not quadratic:
+  // the library centres the data before forming the cross-covariance)
+  LD ratio = mag / spread;
   LD res_star = 0;
   for (size_t i = 0; i < s_used.size(); ++i) {res_star += (apply(Hs, s_used[i]) - t_used[i]).squaredNorm();}
   LD denom = sv(d - 2) + sg * sv(d - 1);
@@ -195,15 +198,18 @@ static void run_case(vh::Ctx & c, CaseData & cd)
   auto params = [&]() {
       return vh::Params{{"dim", (double)d}, {"is_float", (double)cd.is_float}, {"n", (double)cd.n},
         {"noise_rel", (double)(cd.noise / cd.spread)}, {"angle", (double)cd.angle},
-        {"offset_over_spread", (double)(off / spread)}, {"scale", (double)cd.scale},
+        {"offset_over_spread", (double)(off / spread)}, {"scale", (double)cd.scale}, {"amp", (double)amp},
         {"thin_ratio", (double)(psvd.singularValues()(d - 1) / psvd.singularValues()(0))}};
     };
 
   const bool exact = cd.noise == 0;
-  LD rel_round = 64 * eps * ratio * amp;
+  LD rel_round = 64 * eps * amp;            // mapping error relative to mag
+  // error of the rotation matrix itself: the rotation about the long axis of a thin 3D cloud is fixed
+  // by the small singular values of the cross-covariance (squares of the extents), hence amp^2
+  LD rel_rot = 64 * eps * amp * amp * ratio;
   if (exact && rel_round >= 1e-2L) {c.skip("exact:vacuous_tolerance"); }
   LD tol_exact = std::max(cd.is_float ? 0.0L : 1e-9L, rel_round) * mag;
-  LD rel_cmp = 64 * eps * ratio * std::max<LD>(cond, amp);
+  LD rel_cmp = 64 * eps * std::max<LD>(cond, amp);
   bool cmp_ok = std::isfinite((double)rel_cmp) && rel_cmp < 1e-2L;
   if (!exact && !cmp_ok) {c.skip("noisy:vacuous_tolerance_or_degenerate_optimum");}
   LD tol_cmp = rel_cmp * mag;
@@ -243,6 +249,16 @@ static void run_case(vh::Ctx & c, CaseData & cd)
         LD w2 = 0;
         for (size_t i = 0; i < s_used.size(); ++i) {w2 = std::max(w2, (apply(H, s_used[i]) - apply(Ht, s_used[i])).norm());}
         c.expect_le("exact.recovers_motion_on_cloud", w2, 2 * tol_exact, "motion_error", params, wit);
+        // and as a matrix: rotation to 1e-9 (stated; rounding-limited for float and for clouds far
+        // from the origin), translation to the same relative to the magnitudes involved
+        if (rel_rot < 1e-2L) {
+          LD tol_rot = std::max(cd.is_float ? 0.0L : 1e-9L, rel_rot);
+          c.expect_le("exact.recovers_rotation_matrix", (R - cd.Rtrue).norm(), tol_rot, "motion_error", params, wit);
+          c.expect_le("exact.recovers_translation", (H.block(0, d, d, 1) - cd.ttrue).norm(), tol_rot * (off + spread) + 2 * tol_exact,
+            "motion_error", params, wit);
+        } else {
+          c.skip("exact_rotation:vacuous_tolerance");
+        }
       }
     } else {
       LD res = 0, worst = 0;
@@ -252,6 +268,9 @@ static void run_case(vh::Ctx & c, CaseData & cd)
       }
       if (cmp_ok) {
         c.expect_le("noisy.agrees_with_kabsch_on_cloud", worst, tol_cmp, "not_optimal", params, wit);
+        if (rel_cmp * ratio < 1e-2L) {
+          c.expect_le("noisy.rotation_matrix_agrees_with_kabsch", (R - Hs.block(0, 0, d, d)).norm(), rel_cmp * ratio, "not_optimal", params, wit);
+        }
       }
       // Residual optimality, valid even when the minimiser is ill-determined: the computed rotation
       // maximises tr(R (C+E)) for a rounding perturbation E of the cross-covariance C, hence its
@@ -259,14 +278,27 @@ static void run_case(vh::Ctx & c, CaseData & cd)
       // returned matrix adds a first-order term 2 sqrt(res* n) |delta| (Cauchy-Schwarz).
       if (rel_round < 1e-2L) {
         LD n = (LD)s_used.size();
-        LD tol_res = rel_round * (4 * d * n * spread * spread_t + 2 * sqrtl(res_star * n) * mag) + 1e-12L * res_star;
+        LD tol_res = rel_round * (4 * d * n * spread * spread_t * ratio + 2 * sqrtl(res_star * n) * mag) + 1e-12L * res_star;
         c.expect_le("noisy.residual_excess", res - res_star, tol_res, "not_optimal_residual", params, wit);
       } else {
         c.skip("noisy_residual:vacuous_tolerance");
       }
     }
   }
-  // ---- metamorphic: all ten variants agree with each other (exact: via the truth; noisy: direct)
+  // ---- metamorphic: the rotation matrices of all ten variants agree (order of the list, overload,
+  // preconditioning, representation), also for clouds far from the origin where on-cloud
+  // differences are masked by the magnitude of the coordinates
+  {
+    LD rtol = exact ? std::max(cd.is_float ? 0.0L : 1e-9L, rel_rot) : rel_cmp * ratio;
+    bool ok_r = exact ? rel_rot < 1e-2L : (cmp_ok && rel_cmp * ratio < 1e-2L);
+    for (size_t k = 1; ok_r && k < vc.size(); ++k) {
+      if (!vc[k].H.allFinite() || !vc[0].H.allFinite()) {continue;}
+      LD dr = (vc[k].H.block(0, 0, d, d) - vc[0].H.block(0, 0, d, d)).norm();
+      c.expect_le("variants_agree.rotation_matrix", dr, 2 * rtol, "variant_disagreement", params, [&]() {
+          return vh::J().s("variant", vc[k].name).f("k", (int)k).raw("H0", vh::jmat(vc[0].H)).raw("Hk", vh::jmat(vc[k].H)).str();
+        });
+    }
+  }
   if (!exact && cmp_ok) {
     for (size_t k = 1; k < vc.size(); ++k) {
       LD worst = 0;
